@@ -149,3 +149,20 @@ Lemma text_requests_example :
   forallb (troute_ok true) text_requests = true /\
   exists r o, serve_t text_requests [] [] = OK tt r o /\ Nat.leb 4 (length r) = true.
 Proof. vm_compute. split; [reflexivity|]. eexists. eexists. split; reflexivity. Qed.
+
+(* the hypotheses of C06_reader_site_safe / C06_reader_sites_total are satisfiable: each of the seven site
+   kinds has its guard true in some reachable state (and is then safe there) *)
+Definition state_after (ls : list line) : option rstate :=
+  match read_lines (all_ok ls) (init false) [] with OK _ s _ => Some s | _ => None end.
+
+Lemma site_guards_reachable :
+  (exists s, state_after [LBatchHeader (mkheader PPD Mixed) false; ent 22 true] = Some s /\
+     site_guard SCurHeader s = true /\ site_guard SCurControl s = true /\ site_guard SCurLastEntry s = true /\
+     site_ok SCurHeader s = true /\ site_ok SCurControl s = true /\ site_ok SCurLastEntry s = true) /\
+  (exists s, state_after [LBatchHeader (mkheader ADV Advices) false; ent 81 true] = Some s /\
+     site_guard SCurAdvControl s = true /\ site_guard SCurLastAdvEntry s = true /\
+     site_ok SCurAdvControl s = true /\ site_ok SCurLastAdvEntry s = true) /\
+  (exists s, state_after [LIATHeader (mkih Mixed false); ent 22 true] = Some s /\
+     site_guard SIatControl s = true /\ site_guard SIatLastEntry s = true /\
+     site_ok SIatControl s = true /\ site_ok SIatLastEntry s = true).
+Proof. vm_compute. split; [|split]; eexists; repeat split. Qed.
